@@ -17,30 +17,54 @@ def run_sessions(n, seed, work, shards=6):
     prefix = os.path.join(work, 'sesstrace')
     res = vlib.run_vh_sharded(['e2e-sessions', '-n', str(n), '-thruserv', srv, '-thru', thru, '-seed', str(seed), '-trace-out', prefix],
                               min(shards, n), timeout=1800)
-    tf = os.path.join(work, 'session_trace.ndjson')
     lines = []
     for f in sorted(glob.glob(prefix + '.*')):
         lines += open(f).read().splitlines()
-    with open(tf, 'w') as o:
-        o.write("\n".join(lines) + "\n")
     out = dict(res=res, lines=len(lines), rules=[], tlc=None)
     if not lines:
         raise vlib.HarnessTrouble("no session produced a trace")
-    vp = os.path.join(work, 'session_verdict.ndjson')
+    out['rules'], out['tlc'] = validate(lines, work)
+    return out
+
+
+def validate(lines, work, tag="session"):
+    """TLC consumes the hook-trace lines with SessionTrace.tla; returns (rule violations, stats)."""
+    sub = os.path.join(work, "tv-" + tag)
+    os.makedirs(sub, exist_ok=True)
+    tf = os.path.join(sub, 'session_trace.ndjson')
+    with open(tf, 'w') as o:
+        o.write("\n".join(lines) + "\n")
+    vp = os.path.join(sub, 'session_verdict.ndjson')
     r = vlib.run_tlc('SessionTrace', dict(action_constraint='Emit', postcondition='Consumed'), workers=1, edges_path=vp,
-                     extra_files=[tf], timeout=1200, jvm_opts="-Xss64m")
+                     extra_files=[tf], timeout=2400, jvm_opts="-Xss64m")
     if r['violated'] or r['edges'] != 1:
         raise vlib.HarnessTrouble("SessionTrace.tla did not consume the trace (%d lines): %s" % (len(lines), "\n".join(r['out_tail'][-8:])))
     verdict = json.loads(open(vp).read().splitlines()[0])['x']
     if verdict['lines'] != len(lines):
         raise vlib.HarnessTrouble("trace length mismatch")
-    parsed = [json.loads(x) for x in lines]
+    rules = []
+    parsed = None
     for rule, ln in verdict['viol']:
+        if parsed is None:
+            parsed = [json.loads(x) for x in lines]
         ev = parsed[ln - 1]
-        out['rules'].append(dict(rule=rule, prop=rule.split('.')[0], line=ln, event=ev,
-                                 context=parsed[max(0, ln - 6):ln + 2]))
-    out['tlc'] = dict(lines=len(lines), states=r['distinct'])
-    return out
+        rules.append(dict(rule=rule, prop=rule.split('.')[0], line=ln, event=ev, context=parsed[max(0, ln - 8):ln + 2]))
+    return rules, dict(lines=len(lines), states=r['distinct'])
+
+
+def collect(prefix):
+    lines = []
+    for f in sorted(glob.glob(prefix + '.*')):
+        lines += open(f).read().splitlines()
+    return lines
+
+
+def report_rules(v, prop, rules):
+    for r in rules:
+        if r['prop'] == prop:
+            v.violation(dict(kind="trace_rule_violated", rule=r['rule'], point=r['event']['pt']), r)
+        else:
+            print("NOTE %s: trace rule %s (property %s) violated at line %d" % (prop, r['rule'], r['prop'], r['line']))
 
 
 def report(v, prop, sess):
